@@ -140,8 +140,8 @@ PROPS = {
     "C15": {
         "units": ["U9", "U11", "U4", "U3"],
         "level": "proof",
-        "witness": [],
-        "sweep": [],
+        "witness": [(r".", "admission")],
+        "sweep": ["admission"],
         "explanation": "handle's contract: the limiter is asked at most once, with effective(proxy config, socket, peer).ip, and not at all when the PROXY "
                        "header does not parse; tagged assertions: the code after the admission step is reached only if the limiter admitted, the refused "
                        "branch shuts the socket down and returns before any Connection exists, and the Connection is built with_client_address(effective). "
